@@ -1,10 +1,12 @@
 /-
 Props/C05 — the local key index and the residency database behave as persistent maps.
-Property theorems only; lemmas are in Proofs/Lsm, Proofs/LsmRefine, Proofs/Residency.
+Property theorems only; lemmas are in Proofs/Lsm, Proofs/LsmRefine, Proofs/LsmDurable,
+Proofs/LsmReload, Proofs/LsmBytes, Proofs/Residency.
 Model = the Rust code as written after the `fix:` commit b3b2e9d (Model/Lsm, Model/Residency);
 Spec = a map (Spec/IndexMap) / a set of resident keys.
 -/
-import Cascette.Proofs.LsmDurable
+import Cascette.Proofs.LsmReload
+import Cascette.Proofs.LsmBytes
 import Cascette.Proofs.Residency
 namespace Cascette.Props.C05
 open Cascette.Spec.IndexMap (Entry Op Out bucketOf stDelete nBuckets)
@@ -91,6 +93,87 @@ offset < 2^30) with a non-zero 9-byte key. -/
 theorem save_load_id (bk : Bucket) (hs : Sorted bk.sorted) (hw : WFB bk) : loadB (saveB bk) = bk :=
   load_save bk hs hw
 
+/-! ### the .idx file at byte level (Model/LsmBytes) -/
+
+section Bytes
+open Cascette.Model.LsmBytes
+open Cascette.Proofs.LsmBytes
+
+/-- **idx_parse_serialise.** The bytes `save_index` writes (guarded header block, 16-byte header,
+guarded entry block with 18-byte records, zero padding to the next 64 KiB boundary, 512-byte
+pages of 24-byte update entries with hash guards, zero pages up to the capacity) are parsed by
+`load_index` into exactly the entry-level image `saveB` of Model/Lsm — for EVERY bucket whose
+values fit their Rust types (9-byte key, `u32` size, status one of the four enum values), hence
+also for ids > 1023, offsets ≥ 2^30 and the all-zero key, where `saveB` masks / drops; for every
+hash function `H` (the reader verifies no hash), every capacity, any number of pages. So the
+entry-level durability theorems above speak about the real file format. -/
+theorem idx_parse_serialise (H : List Nat → Nat) (cap bucket : Nat) (bk : Bucket) (hf : FitB bk)
+    (bytes : List Nat) (h : serialise H cap bucket bk = some bytes) :
+    parseFile bytes = some (saveB bk) :=
+  parse_serialise H cap bucket bk hf bytes h
+
+/-- **save_load_id at byte level.** Inside the field limits (non-zero key, id ≤ 1023,
+offset < 2^30; sorted run sorted by distinct keys): the writer succeeds whenever the entry data
+fits `u32` and no page holds more than 21 entries, and `load_index` (parse + sort) of the bytes it
+wrote is the bucket itself. -/
+theorem save_load_id_bytes (H : List Nat → Nat) (cap bucket : Nat) (bk : Bucket)
+    (hs : Sorted bk.sorted) (hw : WFB bk) (hf : FitB bk)
+    (hn : 18 * bk.sorted.length < 4294967296) (hp : ∀ p ∈ bk.pages, p.length ≤ 21) :
+    ∃ bytes, serialise H cap bucket bk = some bytes ∧ (parseFile bytes).map loadB = some bk := by
+  have := serialise_isSome H cap bucket bk hn hp
+  cases hb : serialise H cap bucket bk with
+  | none => rw [hb] at this; cases this
+  | some bytes => exact ⟨bytes, rfl, load_parse_serialise H cap bucket bk hs hw hf bytes hb⟩
+
+/-- **idx_layout.** File size and alignment: 40 bytes of headers + 18 bytes per sorted entry; only
+with pending updates an update section follows, starting at the next multiple of 64 KiB (less
+than 64 KiB of padding) and holding max(capacity, pages) pages of 512 bytes. -/
+theorem idx_layout (H : List Nat → Nat) (cap bucket : Nat) (bk : Bucket) (bytes : List Nat)
+    (h : serialise H cap bucket bk = some bytes) :
+    (bytes.length = if bk.log.length = 0 then 40 + 18 * bk.sorted.length
+      else alignUp (40 + 18 * bk.sorted.length) + 512 * max cap bk.pages.length) ∧
+      alignUp (40 + 18 * bk.sorted.length) % 65536 = 0 ∧
+      40 + 18 * bk.sorted.length ≤ alignUp (40 + 18 * bk.sorted.length) ∧
+      alignUp (40 + 18 * bk.sorted.length) < 40 + 18 * bk.sorted.length + 65536 :=
+  ⟨serialise_length H cap bucket bk bytes h, (alignUp_spec _).1, alignUp_ge _, (alignUp_spec _).2⟩
+
+/-- the hypotheses of the byte-level theorems are satisfiable by a bucket with a sorted entry at
+the field limits and a pending tombstone. -/
+example : let bk : Bucket := ⟨[⟨5, 1023, 2 ^ 30 - 1, 4294967295⟩], [[⟨80, 4, 5, 6, 3⟩]]⟩
+    Sorted bk.sorted ∧ WFB bk ∧ FitB bk ∧ 18 * bk.sorted.length < 4294967296 ∧
+      ∀ p ∈ bk.pages, p.length ≤ 21 := by
+  refine ⟨by simp [Sorted], ⟨?_, ?_⟩, ⟨?_, ?_⟩, by decide, by decide⟩
+  · intro e he
+    simp only [List.mem_singleton] at he
+    subst he
+    exact ⟨by decide, by decide, by decide⟩
+  · intro u hu
+    simp only [Bucket.log, List.flatten_cons, List.flatten_nil, List.append_nil, List.mem_singleton] at hu
+    subst hu
+    exact ⟨by decide, by decide, by decide⟩
+  · intro e he
+    simp only [List.mem_singleton] at he
+    subst he
+    exact ⟨by decide, by decide⟩
+  · intro p hp
+    simp only [List.mem_singleton] at hp
+    subst hp
+    refine ⟨by simp, ?_⟩
+    intro u hu
+    simp only [List.mem_singleton] at hu
+    subst hu
+    exact ⟨by decide, by decide, by decide⟩
+
+/-- test of the model against the format description (also compared with the real bytes by the
+correspondence run): the empty-bucket file is the 40 header bytes, with the header fields
+7 / bucket / 0 / 4 / 5 / 9 / 30 / 2^30. -/
+theorem idx_empty_file_bytes :
+    serialise (fun _ => 0) 60 3 Bucket.empty =
+      some [16, 0, 0, 0, 0, 0, 0, 0, 7, 0, 3, 0, 4, 5, 9, 30, 0, 0, 0, 64, 0, 0, 0, 0,
+        0, 0, 0, 0, 0, 0, 0, 0, 0, 0, 0, 0, 0, 0, 0, 0] := by decide
+
+end Bytes
+
 /-- Counter-witness (recorded finding `reload-loses-all-zero-key`, format-level): an entry whose
 9-byte key is all zero is found before and after `flush`, and is gone after `save_all; reload`. -/
 theorem zero_key_lost_on_reload :
@@ -111,11 +194,7 @@ theorem wide_id_on_reload :
 recorded finding and the field limits impose — every `add`/`update` has a non-zero 9-byte key,
 id ≤ 1023, offset < 2^30 — the refinement extends to histories with restarts: every `reload`
 that directly follows a `save_all` is the identity on the map, for every capacity.
-Not proved: a `reload` without a preceding `save_all` (the state then is the map as of the last
-write of each bucket — `save_all`, an explicit flush with pending updates, or the flush a mutator
-performs on a full update section; Spec/IndexMap states this with the written buckets as an
-input, the statement is kept in the comment below; the correspondence run and the oracle's
-"reload lands on an earlier state of each bucket" check exercise it on every seed). -/
+(A `reload` without a preceding `save_all` is covered by `index_refines_map_durable` below.) -/
 theorem index_refines_map_partial (cfg : Cfg) (hcap : 1 ≤ cfg.capPages) (ops : List Op)
     (hr : reloadOnlyAfterSave ops) (hw : ∀ op ∈ ops, opWF op) :
     (∀ k, lookup (run cfg State.init ops).1 k =
@@ -124,15 +203,67 @@ theorem index_refines_map_partial (cfg : Cfg) (hcap : 1 ≤ cfg.capPages) (ops :
   obtain ⟨⟨hg, ha⟩, _, ho⟩ := run_durable cfg hcap ops.length ops rfl State.init _ hr hw relMem_init extra_init
   exact ⟨fun k => by rw [lookup_eq_absS _ hg k, ha k], ho⟩
 
-/- Full statement for arbitrary reloads (not proved):
-   theorem index_refines_map_durable (cfg) (hcap : 1 ≤ cfg.capPages) (ops : List Op)
-       (hw : ∀ op ∈ ops, opWF op) :
-     ∃ ghosts : List (List Nat),   -- per operation: the buckets written through before its effect
-       (∀ k, lookup (run cfg State.init ops).1 k = (specRun State.init ops ghosts).1.mem k) ∧
-       (∀ k, lookup (reload (run cfg State.init ops).1) k = (specRun State.init ops ghosts).1.disk k) ∧
-       outsOk (run cfg State.init ops).2 (specRun State.init ops ghosts).2
-   Missing: the disk half of the relation (`lookup ∘ reload = S.disk`) through `flushBucket`
-   and `appendWithFlush`; the ingredients are proved (`load_save`, `flushB_spec`, `step_extra`). -/
+/-- **index_refines_map_durable** (the full index statement: arbitrary histories with restarts
+at ANY moment, with or without a preceding `save_all`). For every capacity and every history over
+all thirteen operations whose `add`/`update` arguments are inside the field limits (non-zero
+9-byte key — the recorded finding —, id ≤ 1023, offset < 2^30) there is a list `ghosts` naming,
+per operation, the buckets the implementation wrote through before the operation's own effect
+(`ghostsOk`: nothing for the read-only operations, `save_all`, `clear_bucket`, `reload`; nothing
+or the key's bucket for the four mutators — the flush of a full update section; nothing or `b`
+for `flush b`), such that along the specification run of Spec/IndexMap with these written
+buckets (a) the final `lookup` is the live map, (b) a restart now (`reload`) would look up
+exactly the durable map — per bucket the map as of that bucket's last write (`save_all`,
+explicit flush with pending updates, mutator flush) —, and (c) every output in the history,
+also those after restarts, is the map's answer. `index_refines_map_partial` is the special
+case where every `reload` directly follows a `save_all`. -/
+theorem index_refines_map_durable (cfg : Cfg) (hcap : 1 ≤ cfg.capPages) (ops : List Op)
+    (hw : ∀ op ∈ ops, opWF op) :
+    ∃ ghosts : List (List Nat), ghostsOk ops ghosts ∧
+      (∀ k, lookup (run cfg State.init ops).1 k =
+        (specRun Cascette.Spec.IndexMap.State.init ops ghosts).1.mem k) ∧
+      (∀ k, lookup (reload (run cfg State.init ops).1) k =
+        (specRun Cascette.Spec.IndexMap.State.init ops ghosts).1.disk k) ∧
+      outsOk (run cfg State.init ops).2
+        (specRun Cascette.Spec.IndexMap.State.init ops ghosts).2 := by
+  obtain ⟨gs, hgs, hr, ho⟩ := run_full cfg hcap ops State.init _ hw relFull_init
+  obtain ⟨⟨hg', ha'⟩, _, _⟩ := reload_spec _ _ hr.disk
+  exact ⟨gs, hgs, fun k => by rw [lookup_eq_absS _ hr.mem.1 k, hr.mem.2 k],
+    fun k => by rw [lookup_eq_absS _ hg' k, ha' k], ho⟩
+
+/-- **reload_is_last_write** (state form of the same fact, for any reachable manager): after any
+history inside the field limits the files are images of well-formed buckets, and a restart
+makes `lookup` the map they denote, bucket by bucket — `save_index` of the bucket's contents at
+its last write, read back unchanged (`save_load_id`). -/
+theorem reload_is_last_write (cfg : Cfg) (hcap : 1 ≤ cfg.capPages) (ops : List Op)
+    (hw : ∀ op ∈ ops, opWF op) :
+    let s := (run cfg State.init ops).1
+    (∀ b img, s.disk b = some img → ∃ bk, img = saveB bk ∧ loadB img = bk ∧ Sorted bk.sorted ∧ WFB bk) ∧
+      ∀ k, lookup (reload s) k = match s.disk (bucketOf k) with
+        | some img => absB (loadB img) k
+        | none => none := by
+  obtain ⟨gs, _, hr, _⟩ := run_full cfg hcap ops State.init _ hw relFull_init
+  obtain ⟨⟨hg', _⟩, _, _⟩ := reload_spec _ _ hr.disk
+  refine ⟨?_, fun k => by rw [lookup_eq_absS _ hg' k, absS_reload]; rfl⟩
+  intro b img hi
+  obtain ⟨bk, h1, h2, h3⟩ := hr.disk.img b img hi
+  exact ⟨bk, h1, by rw [h1, load_save bk h2.sorted h3], h2.sorted, h3⟩
+
+/-- test of the model (replayed on the code by the correspondence run): capacity one entry, two
+keys of bucket 5; the second `add` finds the update section full, flushes — which writes the
+bucket with key 5 only — and appends. A restart without `save_all` sees key 5 and not key 80. -/
+theorem reload_without_save_witness :
+    let cfg : Cfg := ⟨1, 1⟩
+    let s := (run cfg State.init [.add 5 1 2 3, .add 80 4 5 6]).1
+    absS s 80 = some ⟨80, 4, 5, 6⟩ ∧ absS (reload s) 5 = some ⟨5, 1, 2, 3⟩ ∧
+      absS (reload s) 80 = none := by decide
+
+/-- the hypothesis of `index_refines_map_durable` is satisfiable by a history that restarts
+without saving (after a mutator flush), continues, saves and restarts again. -/
+example : ∀ op ∈ ([.add 5 1023 (2 ^ 30 - 1) 7, .add 80 0 0 0, .reload, .lookup 80, .remove 5,
+    .flush 5, .reload, .saveAll, .reload, .count] : List Op), opWF op := by
+  intro op h
+  simp only [List.mem_cons, List.not_mem_nil, or_false] at h
+  rcases h with rfl | rfl | rfl | rfl | rfl | rfl | rfl | rfl | rfl | rfl <;> simp [opWF]
 
 /-- hypotheses of the partial theorem are satisfiable by a non-trivial history (fills a
 2-entry log, flushes through a mutator, saves, restarts, continues). -/
@@ -181,6 +312,20 @@ theorem residency_refines_map (cfg : Cascette.Model.Residency.Cfg)
       ∀ (i : Nat) o x, r.2[i]? = some o → R.2[i]? = some x → Cascette.Proofs.Residency.outOk o x := by
   obtain ⟨⟨hi, hm, _⟩, hl, ho⟩ := run_refines cfg ops _ _ rel_init
   refine ⟨fun k => by rw [isResident_eq _ hi k, hm k], fun k => by rw [scan_iff _ hi k, hm k], hl, ho⟩
+
+/-- **scan_keys_no_duplicates.** After every history `scan_keys` lists every resident key exactly
+once: the list has no duplicates and its members are exactly the keys whose latest mark says
+resident — so its length IS the number of resident keys — and `entry_count` is never below it
+(it is above it exactly by the keys whose latest mark is a non-resident span: the recorded
+finding `count-includes-keys-marked-span-non-resident`). -/
+theorem scan_keys_no_duplicates (cfg : Cascette.Model.Residency.Cfg)
+    (ops : List Cascette.Spec.ResidencySet.Op) :
+    let r := Cascette.Model.Residency.run cfg Cascette.Model.Residency.State.init ops
+    let R := Cascette.Spec.ResidencySet.run Cascette.Spec.ResidencySet.State.init ops
+    (scanKeys r.1).Nodup ∧ (∀ k, k ∈ scanKeys r.1 ↔ R.1.mem k = true) ∧
+      (scanKeys r.1).length ≤ entryCount r.1 := by
+  obtain ⟨⟨hi, hm, _⟩, _, _⟩ := run_refines cfg ops _ _ rel_init
+  exact ⟨scan_nodup _ hi, fun k => by rw [scan_iff _ hi k, hm k], scan_length_le_count _⟩
 
 /-- Counter-witness (recorded finding `count-includes-keys-marked-span-non-resident`):
 `entry_count` — what `ResidencyContainer::resident_count` returns — is 2 while one of the two
